@@ -256,8 +256,14 @@ def fresh_copy(o: Any) -> Any:
         for s in R.walk(c):
             if s.attr == "local_id" and R.is_link(s.holder):
                 object.__setattr__(s.holder, "local_id", s.value + "_dup")
-        if isinstance(getattr(c, "short_name", None), str):
-            c.short_name = c.short_name + "_dup"
+        named = c
+        if not any(f.name == "short_name" for f in dataclasses.fields(c)) and hasattr(c, "diag_layer_raw"):
+            named = c.diag_layer_raw  # layer wrapper
+        if any(f.name == "short_name" for f in dataclasses.fields(named)) and isinstance(named.short_name, str):
+            old = named.short_name
+            named.short_name = old + "_dup"
+            if any(isa(named, k) for k in DOC_ROOTS):
+                rename_document(c, named, old, old + "_dup")
     return c
 
 
@@ -759,6 +765,8 @@ def run_perturbation(base: str, off: Sequence[str], path: Sequence[Any], kind: s
         new = apply_perturbation(db, root, s, kind, list(path))
     except Skip as e:
         return "skip:" + str(e), [], ""
+    except Exception as e:  # reported in the coverage table, never silently dropped
+        return f"skip:harness cannot build this perturbation ({type(e).__name__}: {str(e)[:120]})", [], ""
     import odxtools.exceptions as ex
     old_mode = ex.strict_mode
     try:
